@@ -351,8 +351,10 @@ func runCheck(args []string, opts *checkOpts) int {
 		}
 		os.Setenv("GOVC_TIER", tier)
 		overlayTestTimeout = 600
+		overlayTestScratchCwd = true
 		out, vals := runOverlayTest(filepath.Join(repoDir(), br.Dir), "zz_verif_"+filepath.Base(br.File), string(src), br.Test, "GOVC-BOUNDED ")
 		overlayTestTimeout = 60
+		overlayTestScratchCwd = false
 		o.Ms = time.Since(tb).Milliseconds()
 		o.Solver = "go test (bounded run)"
 		all = append(all, o)
